@@ -502,8 +502,8 @@ pub fn buf_as_hex_to_io_write(
 /// - a space in between each byte
 /// - but not at start or end
 pub fn hex_to_bytes(s: &str) -> Option<Vec<u8>> {
-    // we expect len 2 or 5 or 8 (so 2 + x*3)
-    if s.len() < 2 || (s.len() - 2) % 3 != 0 {
+    // we expect len 2 or 5 or 8 (so 2 + x*3); only ascii chars can be hex digits (and the text is sliced by byte offsets)
+    if s.len() < 2 || (s.len() - 2) % 3 != 0 || !s.is_ascii() {
         None
     } else {
         // we can alloc the Vec size upfront:
